@@ -420,10 +420,28 @@ static void files_execute(const Plan* p) {
   if (stat_get("file.seek") > 0 && stat_get("file.reopen") + stat_get("file.open") > 1 && stat_get("file.op_after_close") > 0) mark_nontrivial();
 }
 
+static void files_generate_random(Plan* p, Rng* r, int maxops);
 static void files_generate(Plan* p, Rng* r) {
+  if (plan_env(p, "enum", 0)) {
+    /* enumeration family: run index = base * 96 + v.  The base plan (<= 12 operations, fault free) is shared; member v injects
+     * fault kind (v % 8) at the ((v / 8) % 12)-th operation, so every operation of the plan meets every fault kind
+     * (kind 0 = the fault-free member); the k-th-callback selector cycles with the base index */
+    uint64_t base = p->run / 96; int v = (int)(p->run % 96);
+    Rng rb; rng_seed(&rb, p->seed, base, STREAM_PLAN);
+    plan_env_set(p, "faults", 1);
+    files_generate_random(p, &rb, 12);
+    for (int i = 0; i < p->nops; i++) p->ops[i].fault = 0;
+    int kind = v % VFS_F_NKINDS, at = (v / 8) % 12;
+    if (kind && at < p->nops) p->ops[at].fault = (uint8_t)(kind + VFS_F_NKINDS * (int)(base % 4));
+    return;
+  }
+  files_generate_random(p, r, 0);
+}
+static void files_generate_random(Plan* p, Rng* r, int maxops) {
   int faults = (int)plan_env(p, "faults", 0);
   plan_env_set(p, "alloc.place", (int)rng_below(r, 3));
   int nops = rng_chance(r, 6, 10) ? 6 + (int)rng_below(r, 30) : 30 + (int)rng_below(r, 120);
+  if (maxops) nops = 4 + (int)rng_below(r, (uint32_t)maxops - 3);
   static const int lens[] = { 0, 1, 2, 7, 100, 511, 4095, 4096, 4097, 8191, 8192, 8193, 16384, 20000, 24576, 3, 64, 1000 };
   for (int i = 0; i < nops; i++) {
     uint32_t d = rng_below(r, 100);
